@@ -693,6 +693,107 @@ static void apiRun(int run, const Circuit &base, vg::Rng &r) {
   }
 }
 
+// ---- "paramsets": whole parameter sets with several fields at once outside / at / inside their documented ranges, and integer fields
+// in every relation the check constrains (sizes and overlaps, initial steps and steps).  The specification (PlaceAPI.ParamsValid)
+// decides from the logged codes and integers whether the set must be accepted.
+static void paramSetRun(int run, vg::Rng &r) {
+  ColoquinteParameters p((int)r.in(1, 9), 1);
+  p.global.maxNbSteps = (int)r.in(2, 4);
+  p.global.nbInitialSteps = std::min(p.global.nbInitialSteps, p.global.maxNbSteps - 1);
+  double pOut = r.pick(std::vector<double>{0.0, 0.0, 0.02, 0.05, 0.15});
+  Value codes = Value::object();
+  for (int k = 0; k < kNbFields; ++k) {
+    const Field &f = kFields[k];
+    if (f.integer) continue;
+    std::string code = "in";
+    if (r.chance(pOut)) {
+      std::vector<std::string> opts;
+      if (!std::isnan(f.lo)) {
+        opts.push_back("b");
+        if (!f.loAny) opts.push_back("lo");
+      }
+      if (!std::isnan(f.hi)) {
+        opts.push_back("a");
+        if (!f.hiAny) opts.push_back("hi");
+      }
+      code = r.pick(opts);
+      bool low = code == "b" || code == "lo";
+      setField(p, f.name, pickValue(f, low, (code == "lo" || code == "hi") ? "at" : r.pick(std::vector<std::string>{"outside", "near", "far"})));
+    }
+    codes.set(f.name, code);
+  }
+  // integers: values around every bound and relation
+  auto &g = p.global;
+  auto &rl = g.roughLegalization;
+  if (r.chance(0.4)) {
+    rl.lineReoptSize = (int)r.pick(std::vector<int>{0, 1, 1, 2, 3, 8, 64, 65});
+    rl.lineReoptOverlap = (int)r.pick(std::vector<int>{0, 1, 1, 1, 2, 3, 7, 8, 64});
+    rl.diagReoptSize = (int)r.pick(std::vector<int>{0, 1, 1, 2, 3, 8, 64, 65});
+    rl.diagReoptOverlap = (int)r.pick(std::vector<int>{0, 1, 1, 1, 2, 3, 7, 8, 64});
+    rl.squareReoptSize = (int)r.pick(std::vector<int>{0, 1, 1, 2, 3, 8, 9});
+    rl.squareReoptOverlap = (int)r.pick(std::vector<int>{0, 1, 1, 1, 2, 3, 7, 8});
+  }
+  if (r.chance(0.2)) rl.nbSteps = (int)r.in(-1, 2);
+  if (r.chance(0.2)) rl.unidimensionalTransport = r.chance(0.5);
+  if (r.chance(0.2)) rl.costModel = r.pick(std::vector<LegalizationModel>{LegalizationModel::L1, LegalizationModel::L2, LegalizationModel::LInf});
+  if (r.chance(0.15)) p.legalization.costModel = r.pick(std::vector<LegalizationModel>{LegalizationModel::L1, LegalizationModel::L2, LegalizationModel::LInf});
+  if (r.chance(0.2)) {
+    g.maxNbSteps = (int)r.in(-1, 4);
+    g.nbInitialSteps = (int)r.in(-1, 4);
+  }
+  if (r.chance(0.15)) g.nbStepsBeforeRoughLegalization = (int)r.in(0, 2);
+  if (r.chance(0.15)) g.continuousModel.maxNbConjugateGradientSteps = (int)r.in(-1, 2);
+  auto &d = p.detailed;
+  if (r.chance(0.2)) {
+    d.nbPasses = (int)r.in(-1, 2);
+    d.localSearchNbNeighbours = (int)r.in(-1, 3);
+    d.localSearchNbRows = (int)r.in(-1, 2);
+    d.shiftNbRows = (int)r.in(0, 3);
+    d.shiftMaxNbCells = (int)r.in(-1, 30);
+    d.reorderingNbRows = (int)r.in(0, 2);
+    d.reorderingMaxNbCells = (int)r.in(-1, 3);
+  }
+  Value ints = Value::object();
+  ints.set("nbSteps", rl.nbSteps).set("lineSize", rl.lineReoptSize).set("lineOverlap", rl.lineReoptOverlap);
+  ints.set("diagSize", rl.diagReoptSize).set("diagOverlap", rl.diagReoptOverlap).set("squareSize", rl.squareReoptSize).set("squareOverlap", rl.squareReoptOverlap);
+  ints.set("uni1d", rl.unidimensionalTransport).set("roughL1", rl.costModel == LegalizationModel::L1).set("legL1", p.legalization.costModel == LegalizationModel::L1);
+  ints.set("maxNbSteps", g.maxNbSteps).set("nbInitialSteps", g.nbInitialSteps).set("stepsBeforeRough", g.nbStepsBeforeRoughLegalization);
+  ints.set("cgSteps", g.continuousModel.maxNbConjugateGradientSteps);
+  ints.set("nbPasses", d.nbPasses).set("lsNeighbours", d.localSearchNbNeighbours).set("lsRows", d.localSearchNbRows).set("shiftNbRows", d.shiftNbRows);
+  ints.set("shiftMaxNbCells", d.shiftMaxNbCells).set("reorderingNbRows", d.reorderingNbRows).set("reorderingMaxNbCells", d.reorderingMaxNbCells);
+  std::string outcome = "ok", what;
+  try {
+    p.check();
+  } catch (std::exception &ex) {
+    outcome = "error";
+    what = ex.what();
+  }
+  Value e = vt::ev("ParamSet");
+  e.set("run", run).set("codes", codes).set("ints", ints).set("outcome", outcome).set("what", what);
+  // a rejected set must be refused by one entry point (drawn at random) before any work, leaving the circuit as it was
+  Value stage = Value::object();
+  stage.set("stage", "none").set("controlOk", true).set("controlMoved", true).set("rejected", true).set("same", true).set("callbacks", 0);
+  if (outcome == "error") {
+    Circuit pile = pileCircuit(run);
+    std::string before = vp::circuitToJson(pile).str();
+    int st = (int)r.in(0, 2);
+    static const char *stageNames[] = {"global", "legalize", "detailed"};
+    bool threw = false;
+    int cbs = 0;
+    try {
+      PlacementCallback cb = [&](PlacementStep) { ++cbs; };
+      if (st == 0) pile.placeGlobal(p, cb);
+      else if (st == 1) pile.legalize(p, cb);
+      else pile.placeDetailed(p, cb);
+    } catch (std::exception &) {
+      threw = true;
+    }
+    stage.set("stage", stageNames[st]).set("rejected", threw && cbs == 0).set("same", vp::circuitToJson(pile).str() == before).set("callbacks", cbs);
+  }
+  e.set("call", stage);
+  vt::emit(e);
+}
+
 static long long nbInvalidAttempts() { return 59 + 48 + kNbFields * 12 + 11 * 3 + 12; }
 
 int main(int argc, char **argv) {
@@ -745,6 +846,7 @@ int main(int argc, char **argv) {
     vt::forked((int)k, timeout, errPath, [&] {
       if (scen == "proto") protoRun((int)k, base, r);
       else if (scen == "api") apiRun((int)k, base, r);
+      else if (scen == "paramsets") paramSetRun((int)k, r);
       else invalidRun((int)k, k, base);
     }, scen.c_str());
   }
